@@ -1,4 +1,5 @@
 import Swat4.Spec.Registry
+import Swat4.Model.Store
 import Swat4.Gen.Facts
 /-!
 # Canonical rendering of the abstract state — must equal `world.Dump()` of the Go harness
@@ -65,5 +66,83 @@ def zeroFields (kinds : List Nat) : Fields :=
   kinds.map fun k => if k = 1 then .bool false else if k = 2 then .str [] else .int 0
 
 def zeroInfo : Fields := zeroFields Facts.infoFieldKinds
+
+end Swat4.Drv
+
+namespace Swat4.Drv
+open Swat4 Std
+
+def renderKey (k : Nat) : String := (Addr.mk (k / 65536) (Int.ofNat (k % 65536))).render
+
+/-- canonical dump of a Redis-level store — equals `world.Dump()` line for line -/
+def dumpRStore (st : RStore) : List String :=
+  let sv := st.items.toList.map fun (k, r) =>
+    s!"SV,{renderKey k},{r.queryPort},{r.status.toNat},{r.version},{renderTime r.refreshedAt},{renderFields r.info},{renderDetails r.details}"
+  let up := st.updated.toList.map fun (k, t) => s!"UP,{renderKey k},{t}"
+  let rf := st.refreshed.toList.map fun (k, t) => s!"RF,{renderKey k},{t}"
+  let members := st.statusSet.toList
+  let stl := (RStore.bitIdx.zip Status.names).flatMap fun (b, name) =>
+    (members.filter fun e => e % 16 == b).map fun e => s!"ST,{name},{renderKey (e / 16)}"
+  let lk := st.locks.toList.map fun (k, c) => s!"LK,{renderKey k},{if c.ttl then "ttl" else "nottl"}"
+  let ins := st.insItems.toList.map fun (id, a) => s!"IN,{renderId id},{a.render}"
+  let iu := st.insUpdated.toList.map fun (id, t) => s!"IU,{renderId id},{t}"
+  let q := sortQ (st.pQueue.toList.filterMap fun (id, ready) =>
+    (st.pItems[id]?).map fun (p, e) => (ready, probePayload ⟨id, p, ready, e⟩))
+  let pq := (enumFrom 0 q).flatMap fun (n, ready, payload) => [s!"PI,{n},{payload}", s!"PQ,{n},{ready}"]
+  sv ++ up ++ rf ++ stl ++ lk ++ ins ++ iu ++ pq
+
+/-! ## parsing the harness' textual specs -/
+
+def parseIp (s : String) : Option Nat :=
+  match (s.splitOn ".").map String.toNat? with
+  | [some a, some b, some c, some d] => if a < 256 ∧ b < 256 ∧ c < 256 ∧ d < 256 then some (a * 16777216 + b * 65536 + c * 256 + d) else none
+  | _ => none
+
+def parseAddr (s : String) : Option Addr :=
+  match s.splitOn ":" with
+  | [ip, port] => do
+    let i ← parseIp ip
+    let p ← port.toInt?
+    pure ⟨i, p⟩
+  | _ => none
+
+def parseTime (s : String) : Option GoTime :=
+  if s = "z" then some none else s.toInt?.map some
+
+/-- `<ip>:<port>/<queryport>/<status>/<version>/<refreshedNs|z>`; info and details are the zero values -/
+def parseServer (s : String) : Option Server :=
+  match s.splitOn "/" with
+  | [a, qp, st, ver, rf] => do
+    let a ← parseAddr a
+    let qp ← qp.toInt?
+    let st ← st.toNat?
+    let ver ← ver.toInt?
+    let rf ← parseTime rf
+    pure { addr := a, queryPort := qp, status := BitVec.ofNat 9 st, info := zeroInfo, details := ⟨zeroInfo, [], []⟩, refreshedAt := rf, version := ver }
+  | _ => none
+
+def renderServer (s : Server) : String :=
+  s!"{s.addr.render}/{s.queryPort}/{s.status.toNat}/{s.version}/{renderTime s.refreshedAt}"
+
+/-- resolver behaviours of `storeops.Resolver` -/
+def resolverOf (name : String) (caller : Server) : Option Resolver :=
+  match name with
+  | "refuse" => some fun _ => none
+  | "accept" => some fun s => some s
+  | "merge" => some fun s => some { s with queryPort := caller.queryPort, status := s.status ||| caller.status }
+  | "over" => some fun s => some { caller with version := s.version }
+  | _ => none
+
+def parseFilterSet (parts : List String) : Option FilterSet :=
+  match parts with
+  | [ws, ns, ub, ua, ab, aa] => do
+    let ws ← ws.toNat?
+    let ns ← ns.toNat?
+    let ub ← parseTime ub
+    let ua ← parseTime ua
+    let ab ← parseTime ab
+    let aa ← parseTime aa
+    pure { withStatus := BitVec.ofNat 9 ws, noStatus := BitVec.ofNat 9 ns, updatedBefore := ub, updatedAfter := ua, activeBefore := ab, activeAfter := aa }
+  | _ => none
 
 end Swat4.Drv
